@@ -550,7 +550,9 @@ Definition pd_stmt (env : denv) (s : stmt) : bool * stmt * denv :=
     let '(b, env') := pd_decl_names env false t names in (b, s, env')
   | SSubst m v op rhe sval stype =>
     let '(b, rhe') := pd_expr env rhe in
-    if denv_is_local env v then
+    (* meta.type_knowledge().is_local(): the type of the target as recorded on the statement
+       (since /repo fix D20; the type environment does not know the later versions of a parameter) *)
+    if stype_is_local stype then
       let env := denv_set_assigned env v in
       match expr_deg rhe' with
       | Some rg =>
